@@ -258,6 +258,27 @@ fn lle_case(c: &(String, M), rec: &mut Rec) {
                     rec.require("common_T", "heteroazeotrope", h.vapor().temperature == t && h.liquid1().temperature == t && h.liquid2().temperature == t, || "temperatures differ".into());
                     let dd = (h.liquid1().molefracs[0] - h.liquid2().molefracs[0]).abs();
                     rec.require("distinct_phases", "heteroazeotrope", dd > 1e-4, || "liquid phases identical".into());
+                    // the same three-phase point from the pressure specification, from exact and from perturbed liquid compositions
+                    let ph = h.vapor().pressure(Contributions::Total);
+                    let (xa, xb) = (h.liquid1().molefracs[0], h.liquid2().molefracs[0]);
+                    for (gn, (ga, gb)) in [("exact", (xa, xb)), ("perturbed", ((xa * 0.8).max(1e-6), 1.0 - (1.0 - xb) * 0.8)), ("flash", (x1.min(x2), x1.max(x2)))] {
+                        // (an initial temperature is mandatory for the pressure specification)
+                        match PhaseEquilibrium::heteroazeotrope(eos, ph, (ga.min(gb), ga.max(gb)), Some(t * 1.01), Default::default(), Default::default()) {
+                            Ok(hp) => {
+                                let sub = format!("heteroazeotrope_p|{gn}");
+                                let ts: Vec<f64> = [hp.vapor(), hp.liquid1(), hp.liquid2()].iter().map(|s| s.temperature.to_reduced()).collect();
+                                rec.require("common_T", &sub, ts[0] == ts[1] && ts[0] == ts[2], || format!("three phases at {ts:?} K"));
+                                let ps: Vec<f64> = [hp.vapor(), hp.liquid1(), hp.liquid2()].iter().map(|s| s.pressure(Contributions::Total).to_reduced()).collect();
+                                let dp = ps.iter().map(|q| ((q - ph.to_reduced()) / ph.to_reduced()).abs()).fold(0.0, f64::max);
+                                rec.check("spec_exact", &format!("{sub}|p"), dp / 1e-6, true, || format!("three-phase pressures {ps:?} for a specified {ph}"));
+                                let (fv, f1, f2) = (f(hp.vapor()), f(hp.liquid1()), f(hp.liquid2()));
+                                let e = (0..2).map(|i| ((fv[i] - f1[i]) / fv[i]).abs().max(((fv[i] - f2[i]) / fv[i]).abs())).fold(0.0, f64::max);
+                                rec.check("isofugacity", &sub, e / 1e-5, true, || format!("three-phase fugacities differ by {e:e}"));
+                                rec.check("inverse", &format!("{sub}|T"), ((ts[0] - t.to_reduced()) / t.to_reduced()).abs() / 1e-6, true, || format!("heteroazeotrope at the pressure of the T = {t} point returns T = {} K", ts[0]));
+                            }
+                            Err(_) => rec.skip("pressure-specified heteroazeotrope fails (conditional)"),
+                        }
+                    }
                 }
                 Err(_) => rec.skip("heteroazeotrope fails (conditional)"),
             }
